@@ -21,6 +21,9 @@ CONSTANTS
  DevInplaceInput = FALSE
  DevMoveBeforeClose = FALSE
  DevRouteDiscard = FALSE
+ DevStageFallback = FALSE
+ DevBackupSkip = FALSE
+ EnvInits <- MCEnvInits
 INVARIANT NoEarlyEffect
 INVARIANT SuccessState
 INVARIANT OthersKept
@@ -29,6 +32,8 @@ INVARIANT NoLoss
 INVARIANT BackupResolves
 INVARIANT TargetWhole
 INVARIANT TmpClean
+INVARIANT EnvFailClean
+INVARIANT SuccessHasBackup
 INVARIANT BoundOK
 PROPERTY CommitOnly
 CHECK_DEADLOCK FALSE
